@@ -248,7 +248,8 @@ def check_C13(ctx, rep):
             if num(v) is not None:
                 continue
             v = expand_calls(ctx, v)
-            ok = v[0] == 'cast' and v[1] == 'FloatToInt' and contains(v, lambda x: is_call(x, 'Dist::sample'))
+            alts = [a for a in (v[1] if v[0] == 'phi' else (v,)) if num(a) is None]
+            ok = bool(alts) and all(a[0] == 'cast' and a[1] == 'FloatToInt' and contains(a, lambda x: is_call(x, 'Dist::sample')) for a in alts)
             rep.ob('C13.R5', f, 'saturating-cast', ok, 'returns %s' % shape(v))
         bad = [callee_str(c) for (b, c, a, t) in calls(fa2) if any(x in callee_str(c) for x in ('to_int_unchecked', 'TryInto', 'try_from', 'try_into', 'transmute'))]
         rep.ob('C13.R5', f, 'no-unchecked-conversion', not bad, 'conversions: %s' % bad)
@@ -519,13 +520,25 @@ def check_C12(ctx, rep):
     cv = prog.fn(FW, 'Counter', 'validate')
     ca = an.get(cv)
     cp = an.paths(cv, history=True)
+    n_cv = 0
     for (b, k, v) in ret_defs(ca):
+        v2 = expand_calls(ctx, v)
+        if v2[0] == 'phi' or is_call(v2, 'Dist::validate'):
+            # combinator form: Ok(()) when there is no dist, else the result of Dist::validate on it
+            alts = v2[1] if v2[0] == 'phi' else (v2,)
+            okc = all(is_ok_ret(a) or (is_call(a, 'Dist::validate') and contains(a, lambda y: isinstance(y, tuple) and y and y[0] == 'var' and y[2] == 'Some' and is_field(y[1], 'dist', 'Counter'))) for a in alts) and \
+                any(is_call(a, 'Dist::validate') for a in alts)
+            n_cv += 1
+            rep.ob('C12.R3', cv, 'counter-dist-validated', okc, 'returns %s' % shape(v2))
+            continue
         if not is_ok_ret(v):
             continue
         for S in cp.at(b, k):
+            n_cv += 1
             none = any(f[0] == 'variant' and f[2] == 'None' and is_field(f[1], 'dist', 'Counter') for f in S)
             val = continue_of(S, lambda y: is_call(y, 'Dist::validate'))
             rep.ob('C12.R3', cv, 'counter-dist-validated', none or val, '')
+    rep.count_floor('C12.R3', 'judged return paths of Counter::validate', n_cv, 1)
     # ---- R2
     check_validate_before_ok(ctx, rep, 'C12.R2')
     # Dist::validate arms (shared with C13.R1)
@@ -643,12 +656,14 @@ def lower_bound(e):
     return 0
 
 
-def len_guard(S, is_buf):
+def len_guard(S, is_buf, ctx=None):
     """largest K such that the path established len(buf) >= K"""
     best = 0
     for f in S:
         if f[0] != 'cmp':
             continue
+        if ctx is not None:
+            f = f[:2] + (expand_calls(ctx, f[2]), expand_calls(ctx, f[3])) + f[4:]
         # !(len < K)  or  K <= len
         if f[1] == 'lt' and f[5] is False and is_call(f[2], '::len') and is_buf(f[2]):
             best = max(best, lower_bound(f[3]))
@@ -862,7 +877,7 @@ def check_C11(ctx, rep):
                         ls = {x[1] for x in walk(l) if isinstance(x, tuple) and x and x[0] in ('param', 'local')}
                         return bool(bs & ls)
                     st = pf1.at_entry(b)
-                    ok, w = all_paths(st, lambda S: len_guard(S, same_buf) >= need)
+                    ok, w = all_paths(st, lambda S: len_guard(S, same_buf, ctx) >= need)
                     rep.ob('C11.R6', fn, 'const-slice:%s..%d' % (show(bufe)[-12:], need), ok and bool(st), '%s needs len >= %d; guard on path: %s' % (cs.split('::')[-1], need, 'ok' if ok else 'missing/too small'), site='%s:%d' % (fn.file, bb['ln']))
                 elif t['k'] == 'assert' and t['mk'] == 'BoundsCheck':
                     c = fa1.operand(t['c'], at)
@@ -878,7 +893,7 @@ def check_C11(ctx, rep):
                             bs = {x[1] for x in walk(strip_sites(lnexpr)) if isinstance(x, tuple) and x and x[0] in ('param', 'local')}
                             ls = {x[1] for x in walk(l) if isinstance(x, tuple) and x and x[0] in ('param', 'local')}
                             return bool(bs & ls)
-                        ok, w = all_paths(st, lambda S: len_guard(S, same_buf2) >= ix + 1)
+                        ok, w = all_paths(st, lambda S: len_guard(S, same_buf2, ctx) >= ix + 1)
                         rep.ob('C11.R6', fn, 'const-index:%d' % ix, ok and bool(st), 'index %d needs len >= %d' % (ix, ix + 1), site='%s:%d' % (fn.file, bb['ln']))
         rep.extra['v1_undischarged_out_of_scope'] = undis
         rep.count_floor('C11.R6', 'constant-bound accesses checked in the v1 parser', sum(1 for o in rep.obligations if o['rule'] == 'C11.R6'), 10)
